@@ -256,7 +256,10 @@ def run_case(chk, ob, ip, prog, case, props, extra_judge=None):
         if case.params is not None:
             V += c12_reference(data, complete, dec, case.params)
         if case.cache and not case.plugins and 'C08' in props:
-            V += c08_reference(data, complete, dec, case.cache)
+            try:
+                V += c08_reference(data, complete, dec, case.cache)
+            except ValueError:
+                pass        # the client's program is not well-formed: C08 speaks of well-formed programs
         if extra_judge:
             V += extra_judge(env, data, complete, dec)
         if case.paused is not None and not inc:
